@@ -53,10 +53,27 @@ class attach_trace:
                 log[str(v_new)] = log[str(v)] + ">" + "%d:replace@%s" % (self.seq, sys._getframe(1).f_code.co_name)
             return orig_replace(this, v, v_new)
         mf.MorphFactory.replace = replace
+        # exceptions that build() swallows in its generic `except Exception` branch (the generator is then dropped): type @ innermost function
+        self.swallowed = []
+        self.orig_pipeline = mf.MorphFactory._pipeline
+        orig_pipeline = self.orig_pipeline
+        swallowed = self.swallowed
+        def _pipeline(this, lighting):
+            try:
+                return orig_pipeline(this, lighting)
+            except (mf.AppendedException, mf.DependentException, mf.NotConnectedException, mf.RaiseException):
+                raise
+            except Exception as e:  # noqa
+                import traceback
+                tb = traceback.extract_tb(e.__traceback__)
+                swallowed.append("%s@%s" % (type(e).__name__, tb[-1].name if tb else "?"))
+                raise
+        mf.MorphFactory._pipeline = _pipeline
         return self
     def __exit__(self, *a):
         self.mf.MorphFactory.append = self.orig
         self.mf.MorphFactory.replace = self.orig_replace
+        self.mf.MorphFactory._pipeline = self.orig_pipeline
         return False
 
 
@@ -66,6 +83,7 @@ def classify(gens, n=None, record=False, routes=None, trace=False):
         with attach_trace() as t:
             out, c, rec = classify(gens, n, record, routes)
         out["attach_sites"] = t.log
+        out["swallowed"] = list(t.swallowed)
         return out, c, rec
     c = _coll(gens, n, routes)
     rec = None
